@@ -70,9 +70,11 @@ func (e *Env) objConverter(recvT, name, fwd, back string) {
 			continue
 		}
 		if as.Tok == token.DEFINE {
-			if _, isAlloc := c.AllocOf(as.Rhs[0]); isAlloc {
-				outObj = info.Defs[as.Lhs[0].(*ast.Ident)]
-				allocPos = token.Pos(order)
+			if _, isAlloc := allocLit(as.Rhs[0]); isAlloc {
+				if id, isID := as.Lhs[0].(*ast.Ident); isID {
+					outObj = info.Defs[id]
+					allocPos = token.Pos(order)
+				}
 			}
 			continue
 		}
@@ -139,8 +141,18 @@ func (e *Env) objFields(recvT, name string, want []string) {
 		}
 		for i, l := range as.Lhs {
 			if as.Tok == token.DEFINE && len(as.Rhs) == len(as.Lhs) {
-				if _, isAlloc := c.AllocOf(as.Rhs[i]); isAlloc {
-					outObj = info.Defs[l.(*ast.Ident)]
+				if lit, isAlloc := allocLit(as.Rhs[i]); isAlloc {
+					if id, isID := l.(*ast.Ident); isID {
+						outObj = info.Defs[id]
+						// fields given in the literal are carried over as well
+						for _, el := range lit.Elts {
+							if kv, ok := el.(*ast.KeyValueExpr); ok {
+								if k, ok := kv.Key.(*ast.Ident); ok {
+									written[k.Name] = true
+								}
+							}
+						}
+					}
 				}
 				continue
 			}
@@ -222,25 +234,24 @@ func (e *Env) extrasGate(name string) {
 	if fd == nil || fd.Body == nil || len(fd.Body.List) == 0 {
 		return
 	}
-	// the first statement returns nil under a condition that holds whenever Extras is off
-	// (`!r.Extras` alone or as a disjunct)
-	ok := false
-	if is, isIf := fd.Body.List[0].(*ast.IfStmt); isIf && is.Init == nil && len(is.Body.List) == 1 && stmtNorm(c, is.Body.List[0]) == "return nil" {
-		var disj func(x ast.Expr) bool
-		disj = func(x ast.Expr) bool {
-			switch v := x.(type) {
-			case *ast.ParenExpr:
-				return disj(v.X)
-			case *ast.BinaryExpr:
-				if v.Op == token.LOR {
-					return disj(v.X) || disj(v.Y)
-				}
-			}
-			return c.ExprStr(x) == "!r.Extras"
+	// every return of something other than nil is unreachable with Extras off (path conditions;
+	// any arrangement of the guards)
+	rets, okr := returnsOf(c, fd)
+	ok := okr
+	why := ""
+	nonNil := 0
+	for _, r := range rets {
+		if len(r.results) != 1 || r.results[0] == "nil" {
+			continue
 		}
-		ok = disj(is.Cond)
+		nonNil++
+		imp, dec := unsatWith(r.cond, "!r.Extras")
+		if !dec || !imp {
+			ok = false
+			why = "`return " + r.results[0] + "` is reachable under `" + r.cond + "`, which does not require r.Extras"
+		}
 	}
-	e.Run.Check("R-OBJ", name+": objects and scopes are restored only with Extras", e.Prog.Pos(fd.Pos()), ok, "the first statement must return nil whenever r.Extras is false; found "+stmtNorm(c, fd.Body.List[0]))
+	e.Run.Check("R-OBJ", name+": objects and scopes are restored only with Extras", e.Prog.Pos(fd.Pos()), ok && nonNil > 0, "nothing but nil may be returned while r.Extras is false; "+why)
 }
 
 func init() {
@@ -274,4 +285,14 @@ func init() {
 		e.RFork(pairs)
 		_ = schema.KObj
 	})
+}
+
+// allocLit: &T{…} (with or without fields).
+func allocLit(e ast.Expr) (*ast.CompositeLit, bool) {
+	u, ok := ast.Unparen(e).(*ast.UnaryExpr)
+	if !ok || u.Op != token.AND {
+		return nil, false
+	}
+	cl, ok := u.X.(*ast.CompositeLit)
+	return cl, ok
 }
